@@ -91,6 +91,11 @@ fn pool() -> Vec<Vec<u8>> {
     { let mut p = vec![]; p.extend(ins(0x07, 0, 0, 0, 5)); p.extend(ins(0xb7, 0, 0, 0, 0x400)); p.extend(EXIT); v.push(p); }       // 8: valid for default, rejected by custom (first opcode not mov)
     { let mut p = vec![]; p.extend(ins(0x79, 2, 1, 0, 0)); p.extend(ins(0x79, 3, 1, 8, 0)); p.extend(ins(0xbf, 0, 3, 0, 0)); p.extend(ins(0x1f, 0, 2, 0, 0)); p.extend(ins(0x07, 0, 0, 0, 0x500)); p.extend(EXIT); v.push(p); } // 9: fixed-metadata VM only: end slot - start slot (+0x500), slots at offsets 0 and 8
     { let mut p = vec![]; p.extend(ins(0x79, 0, 1, 16, 0)); p.extend(EXIT); v.push(p); } // 10: fixed-metadata VM only: the 8 bytes at offset 16 of the metadata buffer (0 in a fresh buffer unless an offset is 16)
+    // 11: nested local calls; result = r10 of f minus r10 of g = the frame size recorded for f's entry (calculator value, 256 without one;
+    //     0 under the x86-64 JIT, which keeps the frame pointer): a stale or missing stack-usage table shows
+    { let mut p = vec![]; p.extend(ins(0x85, 0, 1, 0, 1)); p.extend(EXIT);                       // main: call f (slot 2); exit
+      p.extend(ins(0xbf, 6, 10, 0, 0)); p.extend(ins(0x85, 0, 1, 0, 1)); p.extend(EXIT);          // f: r6 = r10; call g (slot 5); exit
+      p.extend(ins(0xbf, 0, 6, 0, 0)); p.extend(ins(0x1f, 0, 10, 0, 0)); p.extend(EXIT); v.push(p); } // g: r0 = r6 - r10; exit
     v
 }
 
@@ -102,18 +107,18 @@ pub fn gen(w: &mut impl Write, thorough: bool, seed: u64) {
     let n = if thorough { 400_000 } else { 20_000 };
     for i in 0..n {
         let kind = ["mbuff", "raw", "nodata", "fixed"][(i % 4) as usize];
-        let init = match r.below(4) { 0 => "-".to_string(), _ => format!("{}", if kind == "fixed" && r.chance(1, 3) { 9 } else { *r.pick(&[0usize, 1, 2, 3, 4, 8]) }) };
+        let init = match r.below(4) { 0 => "-".to_string(), _ => format!("{}", if kind == "fixed" && r.chance(1, 3) { 9 } else { *r.pick(&[0usize, 1, 2, 3, 4, 8, 11]) }) };
         let len = 1 + r.below(if i % 10 == 0 { 40 } else { 14 });
         // mini-model of (verifier in force, loaded program) so that an unsafe program (6: no exit, 7: register r11) is only ever
         // offered to a verifier that rejects it
-        let accepts = |v: u32, p: usize| -> bool { match v { 0 => [0usize, 1, 2, 3, 4, 8, 9, 10].contains(&p), 1 => true, 2 => false, _ => p <= 6 } };
+        let accepts = |v: u32, p: usize| -> bool { match v { 0 => [0usize, 1, 2, 3, 4, 8, 9, 10, 11].contains(&p), 1 => true, 2 => false, _ => p <= 6 } };
         let safe = |p: usize| p != 6 && p != 7;
         let mut verifier = 0u32;
         let mut loaded: Option<usize> = init.parse::<usize>().ok();
         let mut ops: Vec<String> = vec![];
         for _ in 0..len {
             let op = match r.below(16) {
-                0..=2 => { let cand: Vec<usize> = (0..(if kind == "fixed" { 10 } else { 9 })).filter(|p| safe(*p) || !accepts(verifier, *p)).collect();
+                0..=2 => { let mut cand: Vec<usize> = (0..(if kind == "fixed" { 10 } else { 9 })).filter(|p| safe(*p) || !accepts(verifier, *p)).collect(); cand.push(11); cand.push(11);
                     let p = if kind == "fixed" && r.chance(1, 3) { if r.chance(1, 2) { 9 } else { 10 } } else { *r.pick(&cand) }; if accepts(verifier, p) { loaded = Some(p); }
                     // program 9 reads the slots at offsets 0 and 8: it is only ever loaded with those offsets;
                     // program 10 reads offset 16: only loaded with offsets that do not use it and a buffer of at least 24 bytes (result 0 in a fresh buffer)
